@@ -1,6 +1,7 @@
 import YtkModel.Wire
 import YtkModel.PipelineData
 import YtkDriver.HeapScript
+import YtkDriver.OpsExtOps
 open Lean
 
 namespace Ytk.C13
@@ -174,6 +175,9 @@ def handle : Wire.Handler := fun op a => do
   | "heapScript" =>
     -- a script of heap-level operations on an explicit heap (YtkDriver/HeapScript.lean)
     HeapScript.run a
+  | "opsExt" =>
+    -- ExecOp / TemplateFileOp / Html2DomOp / ValOrRef decoding (YtkDriver/OpsExtOps.lean)
+    OpsExtOps.run a
   | _ => throw s!"C13: unknown op {op}"
 
 end Ytk.C13
